@@ -516,3 +516,45 @@ def run(ctx):  # noqa: F811
     _run_c27c(ctx)
     r27_8(ctx, ctx.model)
     r27_9(ctx, ctx.model)
+
+
+def r27_10(ctx, m):
+    fi = m.func(MOD, "optimize_kl")
+    ctx.saw_func(fi)
+    ctx.rule("R27.10", "what iteration i does is independent of where this call started: the body of the driver loop never reads "
+                       "`initial_index` (a transition, option or output that is skipped 'in the first iteration of a call' makes a "
+                       "resumed run differ from an uninterrupted one and breaks a transition scheduled for iteration 0)", floor=1)
+    loops = [lp for lp in walk_no_nested(fi.node) if isinstance(lp, ast.For) and "initial_index" in src(lp.iter) and "total_iterations" in src(lp.iter)]
+    main = [lp for lp in loops if any(isinstance(c, ast.Call) and call_name(c) in ("push_sseq", "push_sseq_from_seed") for c in ast.walk(lp))]
+    key = f"{fi.key}::driver loop body does not depend on initial_index"
+    if len(main) != 1:
+        ctx.und("R27.10", key, f"{len(main)} driver loops", fi)
+    else:
+        reads = [x for b in main[0].body for x in ast.walk(b) if isinstance(x, ast.Name) and x.id == "initial_index"]
+        ctx.check("R27.10", key, not reads, f"line {reads[0].lineno}: the loop body reads `initial_index`" if reads else None, fi, reads[0] if reads else main[0])
+    ex = m.func(MOD, "_export_operators", required=False)
+    ctx.rule("R27.11", "_export_operators exports every operator whose domain is a sub-domain of the sample list's domain: the test is "
+                       "_is_subdomain(<operator>.domain, <sample list>.domain) in this order (the helper's parameters are "
+                       "(sub_domain, total_domain))", floor=1)
+    if ex is None:
+        ctx.und("R27.11", f"{MOD}::_export_operators", "missing", MOD)
+        return
+    ctx.saw_func(ex)
+    isd = m.func(MOD, "_is_subdomain", required=False)
+    pnames = isd.params() if isd is not None else []
+    calls = [c for c in walk_no_nested(ex.node) if isinstance(c, ast.Call) and call_name(c) == "_is_subdomain" and len(c.args) == 2]
+    slp = [p_ for p_ in ex.params() if "sample" in p_]
+    key = f"{ex.key}::_is_subdomain(operator domain, sample-list domain)"
+    if len(calls) != 1 or not slp or pnames[:2] != ["sub_domain", "total_domain"]:
+        ctx.und("R27.11", key, f"{len(calls)} calls; helper parameters {pnames}", ex)
+    else:
+        a, b = src(calls[0].args[0]), src(calls[0].args[1])
+        ctx.check("R27.11", key, b == f"{slp[0]}.domain" and a.endswith(".domain") and not a.startswith(slp[0]), src(calls[0]), ex, calls[0])
+
+
+_run_c27d = run
+
+
+def run(ctx):  # noqa: F811
+    _run_c27d(ctx)
+    r27_10(ctx, ctx.model)
